@@ -1,6 +1,276 @@
 package main
 
-// replayObligation: placeholder until the oracle harness is wired in.
+import (
+	"bytes"
+	"context"
+	"encoding/json"
+	"fmt"
+	"math/big"
+	"os"
+	"os/exec"
+	"path/filepath"
+	"regexp"
+	"strings"
+	"sync"
+	"time"
+)
+
+var replayMu sync.Mutex
+var replaySeq int
+
+// parseModel reads "((|a| v) (|b| v) ...)" as printed by get-value.
+func parseModel(s string) map[string]string {
+	out := map[string]string{}
+	i := strings.Index(s, "((")
+	if i < 0 {
+		return out
+	}
+	s = s[i+1:]
+	depth := 0
+	start := -1
+	for k := 0; k < len(s); k++ {
+		switch s[k] {
+		case '|':
+			// skip quoted symbol
+			j := strings.IndexByte(s[k+1:], '|')
+			if j < 0 {
+				return out
+			}
+			k += j + 1
+		case '(':
+			if depth == 0 {
+				start = k
+			}
+			depth++
+		case ')':
+			depth--
+			if depth == 0 && start >= 0 {
+				item := strings.TrimSpace(s[start+1 : k])
+				// item = name value
+				var name, val string
+				if strings.HasPrefix(item, "|") {
+					j := strings.IndexByte(item[1:], '|')
+					name = item[:j+2]
+					val = strings.TrimSpace(item[j+2:])
+				} else {
+					f := strings.SplitN(item, " ", 2)
+					if len(f) == 2 {
+						name, val = "|"+f[0]+"|", strings.TrimSpace(f[1])
+					}
+				}
+				if name != "" {
+					out[name] = val
+				}
+				start = -1
+			}
+			if depth < 0 {
+				return out
+			}
+		}
+	}
+	return out
+}
+
+var negRe = regexp.MustCompile(`^\(-\s*(\d+)\)$`)
+var bvLitRe = regexp.MustCompile(`^\(_ bv(\d+) (\d+)\)$`)
+
+// smtIntValue parses an SMT integer or bit-vector literal.
+func smtIntValue(v string) (*big.Int, bool) {
+	v = strings.TrimSpace(v)
+	if m := negRe.FindStringSubmatch(v); m != nil {
+		n, _ := new(big.Int).SetString(m[1], 10)
+		return n.Neg(n), true
+	}
+	if strings.HasPrefix(v, "#x") {
+		n, ok := new(big.Int).SetString(v[2:], 16)
+		return n, ok
+	}
+	if strings.HasPrefix(v, "#b") {
+		n, ok := new(big.Int).SetString(v[2:], 2)
+		return n, ok
+	}
+	if m := bvLitRe.FindStringSubmatch(v); m != nil {
+		n, ok := new(big.Int).SetString(m[1], 10)
+		return n, ok
+	}
+	n, ok := new(big.Int).SetString(v, 10)
+	return n, ok
+}
+
+var goWidths = map[string]MT{"uint8": {8, false}, "uint16": {16, false}, "uint32": {32, false}, "uint64": {64, false}, "uint": {64, false},
+	"int8": {8, true}, "int16": {16, true}, "int32": {32, true}, "int64": {64, true}, "int": {64, true}, "uintptr": {64, false}}
+
+func goLiteral(val string, typ string) (string, bool) {
+	if typ == "bool" {
+		if val == "true" || val == "false" {
+			return val, true
+		}
+		return "", false
+	}
+	mt, ok := goWidths[typ]
+	if !ok {
+		return "", false
+	}
+	n, ok := smtIntValue(val)
+	if !ok {
+		return "", false
+	}
+	n = mt.Wrap(n)
+	return fmt.Sprintf("%s(%s)", typ, n.String()), true
+}
+
+// replayObligation runs the real function on the inputs of the solver's model (in-package test
+// injected with -overlay, nothing is written to the repository) and checks that the outputs it
+// actually produces are consistent with the refutation: the obligation's negation must remain
+// satisfiable with inputs and outputs pinned to the observed values.
 func replayObligation(w *World, prop string, o *Obligation, detail map[string]interface{}) bool {
+	if o.Result == nil || o.Result.Status != "sat" || o.Kind != "ensures" || len(o.ResultLeaves) == 0 {
+		return false
+	}
+	fn := w.funcs[o.Func]
+	if fn == nil || fn.TypeParams().Len() > 0 || len(fn.TypeArgs()) > 0 {
+		return false
+	}
+	model := parseModel(o.Result.Model)
+	var sb strings.Builder
+	sb.WriteString("package " + w.tpkg.Name() + "\n\nimport (\n\t\"fmt\"\n\t\"testing\"\n)\n\n")
+	sb.WriteString("func TestVerifReplay(t *testing.T) {\n\tdefer func() {\n\t\tif r := recover(); r != nil {\n\t\t\tfmt.Printf(\"REPLAY-PANIC %v\\n\", r)\n\t\t}\n\t}()\n")
+	inputs := map[string]string{}
+	var pins []string
+	var args []string
+	recv := ""
+	for k, p := range o.Params {
+		if p.Unsupported != "" {
+			detail["replay"] = "not replayed: " + p.Unsupported + " (" + p.Name + ")"
+			return false
+		}
+		v := fmt.Sprintf("p%d", k)
+		sb.WriteString(fmt.Sprintf("\tvar %s %s\n", v, p.GoType))
+		for _, l := range p.Leaves {
+			val, ok := model[l.Term]
+			if !ok {
+				if isAtom(l.Term) && strings.HasPrefix(l.Term, "|") {
+					detail["replay"] = "not replayed: model has no value for " + l.Term
+					return false
+				}
+				val = l.Term
+			}
+			lit, ok := goLiteral(val, l.Type)
+			if !ok {
+				detail["replay"] = "not replayed: cannot convert model value " + val
+				return false
+			}
+			if l.Path == "" {
+				sb.WriteString(fmt.Sprintf("\t%s = %s(%s)\n", v, p.GoType, lit))
+			} else {
+				sb.WriteString(fmt.Sprintf("\t%s%s = %s\n", v, l.Path, lit))
+			}
+			inputs[p.Name+l.Path] = val
+			pins = append(pins, fmt.Sprintf("(assert (= %s %s))", l.Term, val))
+		}
+		if p.Receiver {
+			recv = v
+		} else {
+			args = append(args, v)
+		}
+	}
+	nres := fn.Signature.Results().Len()
+	var rs []string
+	for k := 0; k < nres; k++ {
+		rs = append(rs, fmt.Sprintf("r%d", k))
+	}
+	call := fn.Name() + "(" + strings.Join(args, ", ") + ")"
+	if recv != "" {
+		call = recv + "." + call
+	}
+	if nres > 0 {
+		sb.WriteString("\t" + strings.Join(rs, ", ") + " := " + call + "\n")
+	} else {
+		sb.WriteString("\t" + call + "\n")
+	}
+	for _, l := range o.ResultLeaves {
+		sb.WriteString(fmt.Sprintf("\tfmt.Printf(\"REPLAY-LEAF %%s %%v\\n\", %q, %s)\n", l.Path, l.Path))
+	}
+	sb.WriteString("}\n")
+
+	replayMu.Lock()
+	replaySeq++
+	seq := replaySeq
+	replayMu.Unlock()
+	dir := filepath.Join(w.verif, "work", "replay")
+	os.MkdirAll(dir, 0o755)
+	testFile := filepath.Join(dir, fmt.Sprintf("replay_%d_test.go", seq))
+	os.WriteFile(testFile, []byte(sb.String()), 0o644)
+	ov := filepath.Join(dir, fmt.Sprintf("ov_%d.json", seq))
+	ovData, _ := json.Marshal(map[string]map[string]string{"Replace": {filepath.Join(w.repo, "zz_verif_replay_test.go"): testFile}})
+	os.WriteFile(ov, ovData, 0o644)
+	ctx, cancel := context.WithTimeout(context.Background(), 120*time.Second)
+	defer cancel()
+	cmd := exec.CommandContext(ctx, "go", "test", "-overlay", ov, "-vet=off", "-timeout", "60s", "-run", "^TestVerifReplay$", "-count=1", "-v", ".")
+	cmd.Dir = w.repo
+	cmd.Env = append(os.Environ(), "GOFLAGS=-mod=mod", "GOPROXY=off", "GOSUMDB=off", "GOTOOLCHAIN=local")
+	var buf bytes.Buffer
+	cmd.Stdout = &buf
+	cmd.Stderr = &buf
+	cmd.Run()
+	out := buf.String()
+	detail["replay_inputs"] = inputs
+	detail["replay_test_source"] = testFile
+	if len(out) > 4000 {
+		out = out[:4000]
+	}
+	detail["replay_output"] = out
+	observed := map[string]string{}
+	for _, line := range strings.Split(out, "\n") {
+		if strings.HasPrefix(line, "REPLAY-LEAF ") {
+			f := strings.Fields(line)
+			if len(f) == 3 {
+				observed[f[1]] = f[2]
+			}
+		}
+	}
+	detail["replay_observed"] = observed
+	if strings.Contains(out, "REPLAY-PANIC") {
+		detail["replay"] = "the real function panicked on the model's inputs"
+		return true
+	}
+	if len(observed) != len(o.ResultLeaves) {
+		detail["replay"] = "replay test did not produce all outputs"
+		return false
+	}
+	// pin outputs
+	for _, l := range o.ResultLeaves {
+		obs := observed[l.Path]
+		var lit string
+		if l.Type == "bool" {
+			lit = obs
+		} else {
+			n, ok := new(big.Int).SetString(obs, 10)
+			if !ok {
+				return false
+			}
+			if o.vc.Mode == "bv" {
+				lit = bvT(n, goWidths[l.Type].W).S
+			} else {
+				lit = intLit(n)
+			}
+		}
+		pins = append(pins, fmt.Sprintf("(assert (= %s %s))", l.Term, lit))
+	}
+	text := o.SMT(w.prelude[o.vc.Mode], false)
+	if i := strings.LastIndex(text, "(check-sat)"); i >= 0 {
+		text = text[:i]
+	}
+	text += strings.Join(pins, "\n") + "\n(check-sat)\n"
+	pinFile := filepath.Join(dir, fmt.Sprintf("pinned_%d.smt2", seq))
+	os.WriteFile(pinFile, []byte(text), 0o644)
+	st, _, _ := runSolver(solvers[0], pinFile, 30)
+	detail["replay_pinned_query"] = pinFile
+	detail["replay_pinned_status"] = st
+	if st == "sat" {
+		detail["replay"] = "confirmed: the real function, called with the model's inputs, returns outputs for which the postcondition is violated"
+		return true
+	}
+	detail["replay"] = "the outputs of the real function on the model's inputs do not violate the clause (" + st + "): the refutation concerns an abstraction (loop or callee contract), no failing input found"
 	return false
 }
